@@ -59,6 +59,10 @@ class Result:
         }
 
 
+def _bt(x):
+    return z3.BoolVal(x) if isinstance(x, bool) else x
+
+
 class Trace:
     """downstream trace: elements (pieces) then optional terminal; truncated at the first terminal"""
 
@@ -106,6 +110,7 @@ class OpWorld(World):
         self.struct = {"impl": [], "spec": []}
         self.snaps = {"impl": [], "spec": []}
         self.spec_subs = []
+        self.lock_calls = []
         self.cspecs = []  # (spec obj, contract, wrapper state, downstream adapter) of callee stages, in subscription order
         self.harness = None
 
@@ -256,6 +261,8 @@ class OpWorld(World):
             return None
         if k == "observer":
             tr = self.trace(o.name)
+            if o.name == "observer" and self.harness is not None and getattr(self.harness, "in_handler", False):
+                self.lock_calls.append((method, [l.name for l in it.locks_held], self.harness.guard_now(it)))
             if method == "on_next":
                 v = args[0]
                 self.events.append(("down", o.name, "on_next", v))
@@ -280,7 +287,7 @@ class OpWorld(World):
                     self.snaps["impl"].append(self.harness.capture_impl())
             elif self.harness is not None and getattr(self.harness, "phase", "") == "subscribe":
                 # the source may emit synchronously from inside this call: the operator's cells must be ready
-                env = next((x.env for x in hs if isinstance(x, Closure)), None)
+                env = self.harness.pick_cells_env(hs)
                 if env is not None:
                     self.harness.cur_cells_env = env
                     self.harness.sub_snaps.append(self.harness.capture_impl(strict=True))
@@ -496,8 +503,104 @@ class OpHarness:
         self.unsupported = None
         self.functions = {}
         #: contracts of other operators: inside this operator they are used by contract, not by body
-        self.callees = {(x.file[:-3].replace("/", "."), x.func): x for x in callees}
+        self.callees = {}
+        for x in callees:
+            self.callees.setdefault((x.file[:-3].replace("/", "."), x.func), x)
         self.used_callees = set()
+        #: K7 (C43): also emit lock-set obligations for every downstream call
+        self.lockset = False
+        self.lock_sets = []
+        self.cur_source = None
+
+    def guard_now(self, it):
+        """value of the exclusive guard of the source whose handler is running (contracts with `exclusive`)"""
+        g = getattr(self.c, "exclusive", None)
+        if not (self.lockset and g and self.cur_source in g and self.cur_cells_env is not None):
+            return None
+        it.ctx.spec += 1
+        try:
+            t = it.truth_term(self.eval_src(it, g[self.cur_source], self.inv_env(it, self.cur_cells_env, self.cur_spec)))
+        finally:
+            it.ctx.spec -= 1
+        return t
+
+    def pick_cells_env(self, hs):
+        """the closure scope that holds the operator's cells: a handler's defining scope, or - for a handler
+        wrapped by a decorator (synchronized) - the wrapped function's scope"""
+        cands = []
+        for h in hs:
+            if isinstance(h, Closure) and h.env is not None:
+                cands.append(h.env)
+                for v in list(h.env.vars.values()):
+                    if isinstance(v, Closure) and v.env is not None:
+                        cands.append(v.env)
+        roots = [n.split(".")[0].split("[")[0] for n in self.c.cells]
+        for e in cands:
+            if all(e.lookup_env(r) is not None for r in roots):
+                return e
+        return cands[0] if cands else None
+
+    def all_guards(self, it):
+        """current values of every source's exclusive guard"""
+        g = getattr(self.c, "exclusive", None)
+        if not (self.lockset and g and self.cur_cells_env is not None):
+            return {}
+        out = {}
+        it.ctx.spec += 1
+        try:
+            for src, expr in g.items():
+                out[src] = it.truth_term(self.eval_src(it, expr, self.inv_env(it, self.cur_cells_env, self.cur_spec)))
+        finally:
+            it.ctx.spec -= 1
+        return out
+
+    def guard_obligations(self, it, ctx, uid, old):
+        """K7 exclusive guards: pairwise exclusive in every state, and stable (once a source holds its guard it
+        keeps it across every handler step of every source) - so only one source ever passes its guard"""
+        new = self.all_guards(it)
+        names = sorted(old)
+        for i, a in enumerate(names):
+            for b in names[i + 1:]:
+                self.record(ctx, f"{uid}/lockset/guards-exclusive[{a},{b}]", z3.Not(z3.And(_bt(new[a]), _bt(new[b]))), kind="lockset")
+            self.record(ctx, f"{uid}/lockset/guard-stable[{a}]", z3.Implies(_bt(old[a]), _bt(new[a])), kind="lockset")
+
+    def on_cell_write(self, it, lst, op, args):
+        """K7: a mutation of a list that is (part of) a state cell of the operator, inside a handler"""
+        if it.ctx.spec or not getattr(self, "in_handler", False) or self.cur_cells_env is None:
+            return
+        for name in self.c.cells:
+            e = self.cur_cells_env.lookup_env(name)
+            if e is None:
+                continue
+            v = e.vars[name]
+            hit = v is lst or (isinstance(v, ListObj) and not v.symbolic and any(x is lst for x in v.items))
+            if hit:
+                self.cell_writes.append((name, op, [l.name for l in it.locks_held]))
+                return
+
+    def lockset_obligations(self, it, ctx, uid):
+        """K7: every call on the downstream observer is made under the operator's lock, or under an exclusive guard"""
+        for k, (name, op, locks) in enumerate(getattr(self, "cell_writes", [])):
+            if locks:
+                self.lock_sets.append(set(locks))
+                self.record(ctx, f"{uid}/lockset/{name}.{op}#{k}/state-written-under-the-lock", True, kind="lockset",
+                            detail=f"locks held: {locks}")
+            else:
+                self.fail(ctx, f"{uid}/lockset/{name}.{op}#{k}/state-written-under-the-lock",
+                          f"the shared state cell `{name}` is mutated ({op}) while no lock is held: a handler of another source "
+                          f"running under the lock can read or write it at the same time", kind="lockset")
+        for k, (method, locks, guard) in enumerate(self.w.lock_calls):
+            if locks:
+                self.lock_sets.append(set(locks))
+                self.record(ctx, f"{uid}/lockset/{method}#{k}/called-under-the-lock", True, kind="lockset",
+                            detail=f"locks held: {locks}")
+            elif guard is not None:
+                self.record(ctx, f"{uid}/lockset/{method}#{k}/called-under-its-exclusive-guard", guard, kind="lockset",
+                            detail="no lock held: admitted only because this source's exclusive guard holds (at most one source can hold its guard)")
+            else:
+                self.fail(ctx, f"{uid}/lockset/{method}#{k}/called-under-the-lock",
+                          f"observer.{method} is called while no lock is held: two sources emitting from different threads "
+                          f"can be inside the downstream observer at the same time", kind="lockset")
 
     def callee_hook(self, it, f, args, kwargs):
         """a contracted operator applied inside the operator under verification is replaced by its contract"""
@@ -533,6 +636,8 @@ class OpHarness:
         it = Interp(self.loader, ctx, w)
         if self.callees:
             it.call_hook = self.callee_hook
+        if self.lockset:
+            it.list_hook = self.on_cell_write
         it.loop_contracts = dict(c.loops)
         it.on_loop = self.on_loop
         modname = c.file[:-3].replace("/", ".")
@@ -881,11 +986,11 @@ class OpHarness:
                             self.inv_at(it, ctx, snap, self.capture_spec(s)), kind="inv")
         handlers = {}
         cells_env = None
+        allh = []
         for (src, hs, kw, d) in w.subs:
             handlers[src.name] = hs
-            for h in hs:
-                if isinstance(h, Closure) and cells_env is None:
-                    cells_env = h.env
+            allh.extend(hs)
+        cells_env = self.pick_cells_env(allh)
         # closures handed to callee stages (e.g. scan's projection given to map) carry cells too
         self.extra_envs = []
         for (cs, cc, st, out) in w.cspecs:
@@ -960,6 +1065,7 @@ class OpHarness:
         if source not in handlers:
             raise PathEnd()
         h = handlers[source][slot]
+        self.cur_source = source
         hname = ("on_next", "on_error", "on_completed")[slot]
         uid = f"{c.uid}/{source}.{hname}"
         self.havoc(it, ctx, cells_env, s)
@@ -983,11 +1089,16 @@ class OpHarness:
             args = [SV(ctx.fresh("err", "val").t, "val", tag="exc")]
         if h is None:
             raise PathEnd()
+        guards0 = self.all_guards(it)
         try:
             it.call(h, args, {})
         except PyExc as e:
             self.fail(ctx, uid + "/no-exception-escapes", f"exception escapes the handler: {e.value!r}", kind="exc")
             return
+        if self.lockset:
+            self.lockset_obligations(it, ctx, uid)
+            if guards0:
+                self.guard_obligations(it, ctx, uid, guards0)
         if is_done:
             self.record(ctx, uid + "/after-termination/no-exception-escapes", True, kind="exc")
             return
@@ -1016,6 +1127,8 @@ class OpHarness:
         w.spec_subs.clear()
         w.struct = {"impl": [], "spec": []}
         w.snaps = {"impl": [], "spec": []}
+        w.lock_calls = []
+        self.cell_writes = []
         self.n_subs_before = len(w.subs)
         self.cur_cells_env = cells_env
         self.cur_spec = s
@@ -1100,6 +1213,8 @@ class OpHarness:
         except PyExc as e:
             self.fail(ctx, uid + "/no-exception-escapes", f"exception escapes the handler: {e.value!r}", kind="exc")
             return
+        if self.lockset:
+            self.lockset_obligations(it, ctx, uid)
         if is_done:
             self.record(ctx, uid + "/after-termination/no-exception-escapes", True, kind="exc")
             return
@@ -1137,6 +1252,11 @@ class OpHarness:
                 for slot in (0, 1, 2):
                     paths = explore(lambda ctx, _f=fam, _k=slot: self.run_family_handler(ctx, _f, _k))
                     self._collect(paths)
+            if self.lockset and self.lock_sets:
+                common = set.intersection(*self.lock_sets)
+                self.results.append(Result(f"{c.uid}/lockset/one-common-lock", "proved" if common else "refuted", "lockset", {}, [],
+                                           f"locks protecting downstream calls: {sorted(set.union(*self.lock_sets))}; common: {sorted(common)}",
+                                           0.0, "lockset"))
         except Unsupported as e:
             self.unsupported = f"{e}"
         except PyExc as e:
